@@ -68,12 +68,7 @@ def sweep(case, errnos, check, mode="th", collect=None):
     return out
 
 
-def site_class(sop):
-    """kind:name:path-class of a trace operation (stable under insertion of unrelated operations)."""
-    def pc(x):
-        parts = str(x).split("/")
-        return "/".join(parts[:2]) if parts[0] == "refs" or (len(parts) > 1 and parts[1] == "tmp") else parts[0]
-    return ":".join([sop[0], sop[1]] + [pc(x) + ("_delete" if str(x).endswith("_delete") else "") for x in sop[2:]])
+from ..engine_f import site_class  # noqa: E402,F401
 
 
 def c13_check(info):
